@@ -125,7 +125,7 @@ def parse_template(text):
                     d["nobody"] = True
                 elif s.startswith("//@"):
                     raise SystemExit(f"template line {i+1}: unknown directive {s}")
-                elif s == "":
+                elif s == "" or (s.startswith("//") and not s.startswith("//@")):
                     pass
                 else:
                     raise SystemExit(f"template line {i+1}: non-directive line inside item block: {s}")
@@ -140,7 +140,7 @@ def parse_template(text):
     return out
 
 
-STRIP_ATTR = re.compile(r"#\s*\[\s*(inline|cold|must_use|allow|track_caller|doc|derive|cfg_attr|expect|deny|warn|automatically_derived|repr)\b")
+STRIP_ATTR = re.compile(r"#\s*\[\s*(inline|cold|must_use|allow|track_caller|doc|derive|cfg_attr|expect|deny|warn|automatically_derived|repr|error|non_exhaustive|from|source)\b")
 KEEP_DERIVES = {"Clone", "Copy", "Default", "PartialEq", "Eq"}
 
 
@@ -366,7 +366,8 @@ def splice_fn(text, d, log):
         inserts.append((rstart, rend, f" ({d['ret']}: {rtype})\n"))
         log.append(f"RET return value named `{d['ret']}`")
     spec_txt = "\n".join("    " + l for l in d["spec"])
-    if spec_txt.strip():
+    nobody_here = d["nobody"] and body is not None
+    if spec_txt.strip() and not nobody_here:
         inserts.append((sig_end, sig_end, "\n" + spec_txt + "\n"))
 
     if body is not None and not d["nobody"]:
@@ -427,7 +428,7 @@ def splice_fn(text, d, log):
                     inserts.append((toks[q].end, toks[q].end, htxt))
     elif d["nobody"] and body is not None:
         bend = rs.match_close(toks, body)
-        inserts.append((toks[body].start, toks[bend].end, ";"))
+        inserts.append((toks[body].start, toks[bend].end, "\n" + spec_txt + "\n;"))
         log.append("NOBODY body dropped (declaration only)")
 
     inserts.sort(key=lambda x: x[0], reverse=True)
